@@ -453,12 +453,51 @@ def _edited_earlier_revision(world, root, m, st):
         earlier_cfg = _re.sub(r'(?m)^target_file_path\s*=.*$', 'target_file_path = "%s/earlier_revision%s"' % (os.path.dirname(m["cfg"]["target_file_path"]), suffix), cfg_text)
     if earlier_cfg == cfg_text:
         return None
+    then = [{"path": victim, "text": orig}, {"path": cfg_path, "text": cfg_text}]
+    # the earlier revision of a client project also had one more operation (removed since): a scalar field of the query type
+    # that needs no argument
+    qp = os.path.join(root, m["cfg"].get("queries_path") or "")
+    if world["strategy"] == "client" and m["cfg"].get("queries_path"):
+        qfiles = []
+        if os.path.isdir(qp):
+            for dp, _dns, fns in os.walk(qp):
+                qfiles += [os.path.join(dp, f) for f in fns if f.endswith((".graphql", ".graphqls", ".gql")) and not os.path.islink(os.path.join(dp, f))]
+        elif os.path.isfile(qp):
+            qfiles = [qp]
+        qfiles.sort()
+        pick = None
+        try:
+            from graphql import build_schema, get_named_type, is_leaf_type, is_non_null_type
+            qt = build_schema(worlds.sdl_of(world)).query_type
+            from graphql import is_object_type
+            free = lambda f__: not any(is_non_null_type(a_.type) for a_ in f__.args.values())
+            for fname, f_ in (qt.fields.items() if qt else ()):
+                if is_leaf_type(get_named_type(f_.type)) and free(f_):
+                    pick = fname
+                    break
+            if pick is None:
+                # (no scalar at the top: an object-typed field and a scalar below it)
+                for fname, f_ in (qt.fields.items() if qt else ()):
+                    t_ = get_named_type(f_.type)
+                    if is_object_type(t_) and free(f_):
+                        leaf = [n_ for n_, g_ in t_.fields.items() if is_leaf_type(get_named_type(g_.type)) and free(g_)]
+                        if leaf:
+                            pick = "%s {\n    %s\n  }" % (fname, leaf[0])
+                            break
+        except Exception:
+            pick = None
+        if qfiles and pick:
+            qv = qfiles[(st.get("hashseed") or 0) % len(qfiles)]
+            if qv != victim:
+                qorig = open(qv, encoding="utf-8").read()
+                with open(qv, "w", encoding="utf-8") as f:
+                    f.write(qorig.rstrip("\n") + "\n\nquery ZzEarlierRevisionOnlyOperation {\n  %s\n}\n" % pick)
+                then.append({"path": qv, "text": qorig})
     with open(victim, "w", encoding="utf-8") as f:
         f.write(earlier)
     with open(cfg_path, "w", encoding="utf-8") as f:
         f.write(earlier_cfg)
-    return [{"cwd": root, "argv": m["argv"],
-             "then_write": [{"path": victim, "text": orig}, {"path": cfg_path, "text": cfg_text}]}]
+    return [{"cwd": root, "argv": m["argv"], "then_write": then}]
 
 
 def _absolutise(m, root):
